@@ -42,8 +42,8 @@ MANIFEST = {
 A_PY = [
     'def f(x, y=1):\n    """Doc f."""',
     "def _g(): ...",
-    "class _PB:\n    def pbm(self): ...\n    def other(self): ...",
-    "class Base(_PB):\n    def bm(self): ...\n    battr = 1",
+    "class _PB:\n    def pbm(self): ...\n    def other(self): ...\n    shared = 1",
+    "class Base(_PB):\n    def bm(self): ...\n    battr = 1\n    shared = 2",  # (shared: declared by the private base AND re-declared here: the nearest one is what subclasses inherit)
     'class K(Base):\n    """Doc K."""\n    attr = 1\n    def m(self, p): ...\n    def _pm(self): ...',
     # a class with a single public path (no re-export, no subclass): nothing else can report for it
     "class L(Base):\n    lattr = 1\n    def lm(self): ...",
@@ -61,7 +61,7 @@ VARIANTS = {
 PUBLIC = {
     "pkg.a.f": {"pkg.a.f", "pkg.f"}, "pkg.a.K": {"pkg.a.K", "pkg.K"}, "pkg.a.K.attr": {"pkg.a.K.attr", "pkg.K.attr", "pkg.Sub.attr"},
     "pkg.a.K.m": {"pkg.a.K.m", "pkg.K.m", "pkg.Sub.m"}, "pkg.a.Base.bm": {"pkg.a.Base.bm", "pkg.a.K.bm", "pkg.K.bm", "pkg.Sub.bm", "pkg.a.L.bm"},
-    "pkg.pub_helper": {"pkg.pub_helper"}, "pkg.a.L": {"pkg.a.L"}, "pkg.a.L.lm": {"pkg.a.L.lm"}, "pkg.a.L.lattr": {"pkg.a.L.lattr"},
+    "pkg.pub_helper": {"pkg.pub_helper"}, "pkg.a.Base.shared": {"pkg.a.Base.shared", "pkg.a.K.shared", "pkg.K.shared", "pkg.Sub.shared", "pkg.a.L.shared"}, "pkg.a.L": {"pkg.a.L"}, "pkg.a.L.lm": {"pkg.a.L.lm"}, "pkg.a.L.lattr": {"pkg.a.L.lattr"},
     "pkg.a.f@definition": {"pkg.a.f"}, "pkg.a.Base.bm@definition": {"pkg.a.Base.bm"},
     "pkg.a.Base": {"pkg.a.Base"}, "pkg.a._PB.pbm": {"pkg.a.Base.pbm", "pkg.a.K.pbm", "pkg.K.pbm", "pkg.Sub.pbm", "pkg.a.L.pbm"}, "pkg.a.w": {"pkg.a.w"}, "pkg.VALUE": {"pkg.VALUE"}, "pkg.Sub": {"pkg.Sub"}, "pkg.a.Base.battr": {"pkg.a.Base.battr", "pkg.a.K.battr", "pkg.K.battr", "pkg.Sub.battr", "pkg.a.L.battr"},
 }
@@ -97,6 +97,7 @@ def catalogue():
     edit("reorder", True, A, lambda s: list(reversed(s[:2])) + s[2:])
     edit("rekind-unexported-import-target", True, P, lambda s: _sub(s, "def helper(): ...", "helper = 1"))
     edit("add-to-init", True, I, lambda s: s + ["def init_new(): ..."])
+    edit("change-overridden-attr-of-private-base", True, A, lambda s: _sub(s, "    shared = 1", "    shared = 9"))
     # incompatible
     edit("remove-f", False, A, lambda s: [x for x in s if not x.startswith("def f(")], ("pkg.a.f", "removed", None))
     edit("rekind-f", False, A, lambda s: _sub(s, 'def f(x, y=1):\n    """Doc f."""', "f = 1"), ("pkg.a.f", "kind", None))
@@ -111,6 +112,7 @@ def catalogue():
     edit("remove-reexported-from-private-module", False, None, lambda fs: {**fs, "pkg/_priv.py": [x for x in fs["pkg/_priv.py"] if not x.startswith("def pub_helper")],
                                                                            "pkg/__init__.py": [x.replace(', "pub_helper"', "") for x in fs["pkg/__init__.py"] if x != "from pkg._priv import pub_helper"]},
          ("pkg.pub_helper", "removed", None))
+    edit("change-redeclared-attr", False, A, lambda s: _sub(s, "    shared = 2", "    shared = 8"), ("pkg.a.Base.shared", "value was changed", "pkg.a.Base"))
     edit("change-attr-value", False, A, lambda s: _sub(s, "    attr = 1", "    attr = 2"), ("pkg.a.K.attr", "value was changed", "pkg.a.K"))
     edit("change-w-value", False, A, lambda s: _sub(s, "w = 2", "w = 5"), ("pkg.a.w", "value was changed", None))
     edit("remove-w", False, A, lambda s: [x for x in s if x != "w = 2"], ("pkg.a.w", "removed", None))
@@ -244,6 +246,11 @@ def judge(griffe, variant, script, old_pkg, new_pkg):
         last = path.rsplit(".", 1)[-1]
         if path == "pkg._priv.pub_helper":
             continue  # judged above (wrong-path/...): one diagnosis per cause
+        if path == "pkg.a._PB.shared" and any(e["name"] == "swap-base" for e in edits) and "value" in kind.lower():
+            # class L(Base) -> class L(_PB): L.shared now comes from the private base (2 -> 1), a real change of the public pkg.a.L.shared,
+            # but reported against the canonical path inside the private class (same cause as wrong-path/...: breakages carry the target)
+            viols.append(("wrong-path/inherited-through-private-base", f"the value change of pkg.a.L.shared (inherited, 2 -> 1 after the base swap) is reported at {path}"))
+            continue
         if any(last == m or f".{m}." in path + "." for m in PRIVATE_MARKERS):
             viols.append((f"noise/private/{last}/{kind}", f"breakage reported on private / not exported object {path} ({kind})"))
     return viols, seen
